@@ -323,3 +323,50 @@ impl<K: Copy + Ord, V> IndexedPq<K, V> {
         self.0.extract(key.0)
     }
 }
+
+/// Thin wrapper over the crate-private `util::task_set::TaskSet` together with
+/// the `WakeSink` of its parent task (H2).
+pub struct VTaskSet {
+    set: crate::util::task_set::TaskSet,
+    sink: diatomic_waker::WakeSink,
+}
+
+impl VTaskSet {
+    pub fn with_len(len: usize) -> Self {
+        let sink = diatomic_waker::WakeSink::new();
+        let set = crate::util::task_set::TaskSet::with_len(sink.source(), len);
+
+        Self { set, sink }
+    }
+    /// Registers the waker of the parent task.
+    pub fn register(&mut self, waker: &Waker) {
+        self.sink.register(waker);
+    }
+    pub fn unregister(&mut self) {
+        self.sink.unregister();
+    }
+    /// `TaskSet::take_scheduled`, collecting all indices.
+    pub fn take_scheduled(&self, notify_count: usize) -> Option<Vec<usize>> {
+        self.set.take_scheduled(notify_count).map(|it| it.collect())
+    }
+    /// `TaskSet::take_scheduled`, consuming at most `take` indices and
+    /// dropping the iterator (which discards the remaining ones).
+    pub fn take_scheduled_partial(&self, notify_count: usize, take: usize) -> Option<Vec<usize>> {
+        self.set
+            .take_scheduled(notify_count)
+            .map(|it| it.take(take).collect())
+    }
+    pub fn discard_scheduled(&self) {
+        self.set.discard_scheduled();
+    }
+    pub fn resize(&mut self, len: usize) {
+        self.set.resize(len);
+    }
+    pub fn has_scheduled(&self) -> bool {
+        self.set.has_scheduled()
+    }
+    /// An owned clone of the waker of sub-task `idx`.
+    pub fn waker_of(&self, idx: usize) -> Waker {
+        (*self.set.waker_of(idx)).clone()
+    }
+}
